@@ -47,7 +47,8 @@ pub const P_FIRST_SPAWN_GATED: usize = 7;
 pub const P_WORKER_WOKEN_AGAIN: usize = 8;
 pub const P_CONCURRENT_ENSURE: usize = 9;
 pub const P_QUIESCENT_CHECK: usize = 10;
-pub const NPROBES: usize = 11;
+pub const P_DEPENDENT_TASK_WAITED: usize = 11;
+pub const NPROBES: usize = 12;
 pub const PROBE_NAMES: [&str; NPROBES] = [
     "worker-reached-wait",
     "task-ran-after-worker-wait",
@@ -60,6 +61,7 @@ pub const PROBE_NAMES: [&str; NPROBES] = [
     "worker-woken-then-listening-again",
     "two-threads-inside-ensure",
     "quiescent-worker-check",
+    "dependent-task-waited-for-its-peer",
 ];
 
 /// A boolean gate one can wait on without spinning (so that a stuck run is a *deadlock* under
@@ -132,6 +134,11 @@ pub struct Globals {
     pub directed_race: AtomicBool,
     pub spawner_in_window: Gate,
     pub signal_loop_done: Gate,
+    /// Idle-worker tracking (only when the scenario contains `WaitWorkersIdle`): number of workers
+    /// that passed `worker:before-wait` (listener registered, queues empty) and have not resumed.
+    pub track_idle: AtomicBool,
+    pub idle: Mutex<u32>,
+    pub idle_cv: Condvar,
 }
 
 pub static G: Globals = Globals {
@@ -161,6 +168,9 @@ pub static G: Globals = Globals {
     directed_race: AtomicBool::new(false),
     spawner_in_window: Gate::new(),
     signal_loop_done: Gate::new(),
+    track_idle: AtomicBool::new(false),
+    idle: Mutex::new(0),
+    idle_cv: Condvar::new(),
 };
 
 pub fn stamp() -> u64 {
@@ -203,6 +213,24 @@ pub fn reset(sub_seed: u64) {
     G.directed_race.store(false, Relaxed);
     G.spawner_in_window.reset();
     G.signal_loop_done.reset();
+    G.track_idle.store(false, Relaxed);
+    *G.idle.lock().unwrap_or_else(|e| e.into_inner()) = 0;
+}
+
+/// The calling worker is no longer parked (it was woken, or it starts a task).
+pub fn worker_resumed() {
+    if IDLE.get() {
+        IDLE.set(false);
+        let mut n = G.idle.lock().unwrap_or_else(|e| e.into_inner());
+        *n = n.saturating_sub(1);
+    }
+}
+
+pub fn wait_workers_idle(n: u32) {
+    let mut c = G.idle.lock().unwrap_or_else(|e| e.into_inner());
+    while *c < n {
+        c = G.idle_cv.wait(c).unwrap_or_else(|e| e.into_inner());
+    }
 }
 
 fn next_rand() -> u64 {
@@ -234,6 +262,8 @@ thread_local! {
     /// This thread holds the first-spawn window lock.
     static HOLDS_WINDOW: Cell<bool> = const { Cell::new(false) };
     static INSIDE_ENSURE: Cell<bool> = const { Cell::new(false) };
+    /// This worker is counted in `G.idle`.
+    static IDLE: Cell<bool> = const { Cell::new(false) };
 }
 
 pub fn holds_window() -> bool {
@@ -282,8 +312,18 @@ pub fn handler(name: &'static str) {
             if i == S_WORKER_BEFORE_WAIT {
                 WAITED.set(true);
                 probe(P_WORKER_REACHED_WAIT);
-            } else if WAITED.get() {
-                probe(P_WORKER_WOKEN_AGAIN);
+                if G.track_idle.load(Relaxed) && !IDLE.get() {
+                    IDLE.set(true);
+                    *G.idle.lock().unwrap_or_else(|e| e.into_inner()) += 1;
+                    G.idle_cv.notify_all();
+                }
+            } else {
+                if WAITED.get() {
+                    probe(P_WORKER_WOKEN_AGAIN);
+                }
+                if G.track_idle.load(Relaxed) {
+                    worker_resumed();
+                }
             }
         }
         S_ENSURE_BEGIN => {
